@@ -377,6 +377,8 @@ InBox(S) ==
 (***************************************************************************)
 
 \* ---- C01 : batch construction ------------------------------------------
+\* where an input vertex really is: its lattice coordinates, or the decimal string of coordinates beyond the exact range
+InputPosKey(x) == IF "mw" \in DOMAIN x THEN <<"w", x.mw>> ELSE <<"m", x.m>>
 \* a.dedup: 0 Off, 1 Exact, 2 Epsilon (absent = default options = Off)
 DedupOn(a) == "dedup" \in DOMAIN a /\ a.dedup # 0
 
@@ -402,6 +404,14 @@ ConstructOK(a, r, post) ==
          r.skipped < 0 \/ r.inserted + r.skipped = Len(a.input)
          \/ (DedupOn(a) /\ r.inserted + r.skipped <= Len(a.input)
              /\ r.inserted + r.skipped >= Cardinality({a.input[i].m : i \in DOMAIN a.input})))
+  \* completeness: when nothing was skipped, an input vertex can only be missing because the preprocessing dropped it
+  \* as a duplicate of ANOTHER input at the same position (the position key is the true coordinate string for
+  \* coordinates beyond the exact range)
+  /\ Chk("C01.a distinct input vertex is neither present nor counted as skipped",
+         r.skipped = 0 =>
+           \A i \in DOMAIN a.input :
+             a.input[i].u \in VIds(post)
+             \/ \E j \in DOMAIN a.input : j # i /\ InputPosKey(a.input[j]) = InputPosKey(a.input[i]))
   \* C09 (construction half): no two stored vertices at one lattice home unless
   \* one is perturbed; every skipped-as-duplicate count is backed by a real duplicate
   /\ Chk("C09.no coincident vertices",
